@@ -65,6 +65,12 @@ func C16(c *Ctx) {
 	c.R.Rule("C16-R2", "E4", "lock discipline and single critical section", 10)
 	c.R.Rule("C16-R3", "E7+E3", "one transaction for all records", 4)
 	c.R.Rule("C16-R5", "E3", "a failed write is not acted upon: nothing emitted by the uncommitted transitions is reported or re-processed", 1)
+	c.R.Rule("C16-R6", "E1", "a script works on copies: a machine's bindings in memory cannot change before the write that records the transition", 1)
+	if ea, _ := c.ecmaAnalysis(); ea != nil {
+		if c.scriptIsolation("C16-R6", ea, true) == 0 {
+			c.R.Break("C16-R6: no value handed to the script runtime found")
+		}
+	}
 	c16FailedWrite(c)
 	c.R.Rule("C16-R4", "E5", "the record written for a new machine is the state installed in memory", 2)
 	c16Added(c)
